@@ -911,7 +911,7 @@ def run(tier, seed):
     thorough = tier == "thorough"
     rng = random.Random(seed)
     maxlen, maxlen_nosp = (6, 5) if thorough else (5, 4)
-    n_formulas, n_bases, n_queries = (40000, 8000, 6000) if thorough else (4000, 800, 600)
+    n_formulas, n_bases, n_queries = (40000, 8000, 6000) if thorough else (3000, 600, 400)
     per = 125 if thorough else 50
     jobs = [("exh", it) for it in _exhaustive_items(maxlen, maxlen_nosp)]
     jobs += [("formulas", (rng.randrange(2**62), per)) for _ in range(n_formulas // per)]
